@@ -491,17 +491,17 @@ std::optional<Node> parse_with(const P& p, const Job& j, std::string& stream_tex
 }
 
 template<typename P>
-void run_job(const P& p, const Job& j, const std::string& gid, std::string& out)
+void run_job_impl(const P& p, const Job& j, const std::string& gid, std::string& out, bool wd)
 {
     auto& L = tl_log;
     L.reset();
     std::string stream_text, threw;
     std::optional<Node> res;
-    watchdog_arm(j.id.c_str());
+    if (wd) watchdog_arm(j.id.c_str());
     try { res = parse_with(p, j, stream_text); }
     catch (const bounds_error& e) { threw = std::string("bounds:") + e.what(); }
     catch (const std::exception& e) { threw = std::string("exception:") + e.what(); }
-    watchdog_disarm();
+    if (wd) watchdog_disarm();
     out += "{\"id\":"; jstr(out, j.id);
     out += ",\"g\":"; jstr(out, gid);
     out += ",\"buf\":" + std::to_string(j.buf) + ",\"stream\":" + std::to_string(j.stream);
@@ -531,6 +531,8 @@ void run_job(const P& p, const Job& j, const std::string& gid, std::string& out)
     }
     out += "}\n";
 }
+template<typename P> void run_job(const P& p, const Job& j, const std::string& gid, std::string& out) { run_job_impl(p, j, gid, out, true); }
+template<typename P> void run_job_nowd(const P& p, const Job& j, const std::string& gid, std::string& out) { run_job_impl(p, j, gid, out, false); }
 } // namespace vh
 
 namespace ctpg_verif { struct access; }
@@ -573,6 +575,60 @@ void serve_one(Make&& make, const std::string& gid, const std::vector<Job>& jobs
         run_job(*p, j, gid, t);
         fwrite(t.data(), 1, t.size(), out);
     }
+}
+
+// C15: T threads parse concurrently on ONE parser object (each thread its own order of the jobs, its own log), while a
+// further thread keeps calling write_diag_str; the object's byte image is compared before / after.
+template<typename Make>
+void serve_threads(Make&& make, const std::string& gid, const std::vector<Job>& jobs, FILE* out, int T)
+{
+    using P = std::remove_pointer_t<decltype(make())>;
+    std::unique_ptr<P> p(make());
+    std::string o = "{\"dump\":";
+    dump_parser(*p, gid, o);
+    o.back() = '}'; o += "\n";
+    fwrite(o.data(), 1, o.size(), out);
+    if (o.find("[\"rr\",") != std::string::npos) return;
+    std::vector<Job> mine;
+    std::string prefix = gid + ":";
+    for (const auto& j : jobs) if (j.id.compare(0, prefix.size(), prefix) == 0) mine.push_back(j);
+    std::string before(reinterpret_cast<const char*>(p.get()), sizeof(P));
+    std::vector<std::string> outs(T);
+    std::vector<pthread_t> th(T + 1);
+    struct Arg { const P* p; const std::vector<Job>* jobs; std::string* out; const std::string* gid; int k; int T; volatile bool* stop; };
+    volatile bool stop = false;
+    std::vector<Arg> args;
+    for (int k = 0; k <= T; ++k) args.push_back(Arg{ p.get(), &mine, k < T ? &outs[k] : nullptr, &gid, k, T, &stop });
+    auto worker = [](void* a) -> void*
+    {
+        Arg& A = *static_cast<Arg*>(a);
+        if (A.k == A.T)
+        {
+            while (!*A.stop) { std::ostringstream ds; A.p->write_diag_str(ds); }
+            return nullptr;
+        }
+        size_t n = A.jobs->size();
+        for (size_t i = 0; i < n; ++i)
+        {
+            // thread k walks the job list with its own stride and offset: different interleavings, every job per thread
+            size_t idx = (i * (2 * size_t(A.k) + 1) + size_t(A.k) * 7) % n;
+            if (((2 * size_t(A.k) + 1) % n) == 0 && n > 1) idx = (i + size_t(A.k)) % n;
+            Job j = (*A.jobs)[idx];
+            j.id += "#t" + std::to_string(A.k);
+            run_job_nowd(*A.p, j, *A.gid, *A.out);
+        }
+        return nullptr;
+    };
+    for (int k = 0; k <= T; ++k) pthread_create(&th[k], nullptr, worker, &args[k]);
+    for (int k = 0; k < T; ++k) pthread_join(th[k], nullptr);
+    stop = true;
+    pthread_join(th[T], nullptr);
+    for (int k = 0; k < T; ++k) fwrite(outs[k].data(), 1, outs[k].size(), out);
+    std::string after(reinterpret_cast<const char*>(p.get()), sizeof(P));
+    std::string r = "{\"image\":"; jstr(r, gid);
+    size_t diff = 0; for (size_t i = 0; i < before.size(); ++i) if (before[i] != after[i]) ++diff;
+    r += ",\"bytes\":" + std::to_string(before.size()) + ",\"changed\":" + std::to_string(diff) + ",\"threads\":" + std::to_string(T) + "}\n";
+    fwrite(r.data(), 1, r.size(), out);
 }
 
 // main() of a generated single-grammar TU: <prog> <jobsfile> <outfile>
